@@ -38,6 +38,24 @@ def in_fragment(case):
     return True
 
 
+BUILTIN = {"void", "bool", "u8", "u16", "u32", "u64", "u128", "i8", "i16", "i32", "i64", "i128", "f32", "f64"}
+
+
+def packed_embeds_struct(case):
+    """known finding K05: every emitted struct carries repr(align(N)), and rustc refuses a packed struct that
+    contains one (E0588); the class is a packed type with a by-value field of a non-built-in type"""
+    for m in case["input"]["mods"]:
+        for d in m["defs"]:
+            if d["k"] == "type" and d["packed"]:
+                for f in d["fields"]:
+                    t = f["ty"]
+                    while t.get("k") == "arr":
+                        t = t["t"]
+                    if t.get("k") == "nm" and t["n"] not in BUILTIN:
+                        return True
+    return False
+
+
 def run_c13(tier):
     res = Result("C13", tier)
     cov = {"states": 0, "transitions": 0, "traces_validated_against_impl": 0, "tlc": [], "checker_cmd": ""}
@@ -72,6 +90,8 @@ def run_c13(tier):
             if problems:
                 bad += 1
                 kf = [k for k in case["oracle"].get("kf", []) if k.startswith("C13:")]
+                if not kf and packed_embeds_struct(case) and all("E0588" in p_ for p_ in problems):
+                    kf = ["C13:packed-embeds-struct"]
                 res.violation("; ".join(problems[:2]), payload(case, obs), kf[0] if kf else None)
             elif acc % 499 == 0:
                 res.sample({"group": name, "modules": [(m["path"], [d["name"] for d in m["defs"]]) for m in case["input"]["mods"]],
